@@ -759,7 +759,7 @@ def rule_length(facts, impls):
             else:
                 ln.ok({"function": b.id, "leaves": nleaf, "delta": " or ".join(_fmt_poly(w) for w in wants), "verdict": "ok"})
     ln.require_floor(12, "sink operations summarised")
-    return [pf, wd, ln, rule_wordcount(facts, impls), rule_twoc_default(facts), rule_operand(facts, impls), rule_default_bytes(facts)]
+    return [pf, wd, ln, rule_wordcount(facts, impls), rule_twoc_default(facts), rule_operand(facts, impls), rule_default_bytes(facts), rule_default_zeros(facts)]
 
 
 def _eval_pad(rv, B, unit):
@@ -1356,6 +1356,101 @@ def rule_operand(facts, impls):
                    "verdict": "top-n mask on every row"})
     op.require_floor(4, "operand normalisations")
     return op
+
+
+# ------------------------------------------------------------------------------------------------ DEFAULT/write-zeros
+# The provided write_zeros is what a user-defined sink runs unless it overrides it (both in-memory sinks do, so no test
+# reaches it).  Its effect summary - loops in closed form, the remainder as an expression of `n` - is evaluated for every
+# n on a grid: the widths written must add up to n, every written value is zero, every single write is 1..=64 bits wide
+# or an explicit zero-width write, and nothing else touches the sink.
+
+def _eval_zero_run(E, facts, events, env, acc):
+    for e in events:
+        k = e[0]
+        if k == "mark":
+            continue
+        if k == "w":
+            w = E.evalv(e[2], env, facts)
+            v = E.evalv(E.strip_casts(e[3]), env, facts)
+            if not isinstance(w, int) or w < 0 or w > 64:
+                return "a write of width %s (%s)" % (w, E.show(e[2]))
+            if v != 0:
+                return "a write of the value %s" % E.show(e[3])
+            if e[1] != ("p", 1, ()):
+                return "a write to another sink"
+            acc[0] += w
+        elif k == "loop":
+            d = e[1]
+            if d[0] != "range":
+                return "a loop over %s" % E.show_desc(d)
+            lo, hi = E.evalv(d[2], env, facts), E.evalv(d[3], env, facts)
+            if not isinstance(lo, int) or not isinstance(hi, int):
+                return "a loop whose bounds are not evaluable (%s)" % E.show_desc(d)
+            if hi - lo > 1 << 16:
+                return "a loop of %d iterations" % (hi - lo)
+            for i in range(lo, hi):
+                env2 = dict(env)
+                env2[("idx", d[1])] = i
+                r = _eval_zero_run(E, facts, e[2], env2, acc)
+                if r:
+                    return r
+        elif k == "case":
+            dv = E.evalv(e[1], env, facts)
+            if not isinstance(dv, int):
+                return "a branch on %s" % E.show(e[1])
+            arm = None
+            other = None
+            for lab, evs in e[2]:
+                labs = lab if isinstance(lab, tuple) else (lab,)
+                if dv in labs:
+                    arm = evs
+                if "else" in labs:
+                    other = evs
+            arm = arm if arm is not None else other
+            if arm is None:
+                return "a branch on %s without an arm for %s" % (E.show(e[1]), dv)
+            r = _eval_zero_run(E, facts, arm, env, acc)
+            if r:
+                return r
+        else:
+            return "a sink operation `%s`" % k
+    return None
+
+
+def rule_default_zeros(facts):
+    from . import lib_effect as E
+    dz = RuleResult("DEFAULT/write-zeros", "the provided write_zeros writes exactly n zero bits for every n (effect summary "
+                                           "evaluated on a grid of run lengths)")
+    b = facts.bodies.get("bitsink::BitSink::write_zeros")
+    if b is None:
+        dz.fail(Finding("DEFAULT/write-zeros", "bitsink::BitSink::write_zeros", "anchor-missing", 0, "",
+                        "provided write_zeros not found"))
+        return dz
+    ectx = E.Ctx(facts)
+    try:
+        ev = E.Interp(ectx, b).run()
+    except E.Undecided as e:
+        dz.fail(Finding("DEFAULT/write-zeros", b.id, "undecided", 0, b.loc(), "cannot summarise %s: %s" % (b.id, e)))
+        return dz
+    grid = list(range(0, 1100)) + [4095, 4096, 4097, 65535, 65536, 65537, (1 << 20) - 1, 1 << 20, (1 << 20) + 1]
+    bad = None
+    for n in grid:
+        acc = [0]
+        why = _eval_zero_run(E, facts, ev, {2: n}, acc)
+        if why:
+            bad = (n, "the summary contains %s" % why)
+            break
+        if acc[0] != n:
+            bad = (n, "%d zero bits are written" % acc[0])
+            break
+    if bad is None:
+        dz.ok({"function": b.id, "summary": "; ".join(E.flat(ev))[:240], "rows": len(grid), "verdict": "n zero bits on every row"})
+    else:
+        dz.fail(Finding("DEFAULT/write-zeros", b.id, "zero-run-length", 0, b.loc(),
+                        "provided write_zeros(n = %d): %s (summary: %s): a sink that relies on the provided method does not "
+                        "receive a run of exactly n zeros" % (bad[0], bad[1], "; ".join(E.flat(ev))[:300])))
+    dz.require_floor(1, "provided write_zeros")
+    return dz
 
 
 # ------------------------------------------------------------------------------------------------ DEFAULT/bytes-aligned
